@@ -1269,6 +1269,33 @@ func (ck *Check) nodeListImmutability(rule string) {
 		}
 	}
 	ck.Stats[rule+" object field stores examined"] = objStores
+	// the informers hand the listers the API server's objects: no transform may rewrite (or
+	// replace by a trimmed copy) what is stored in the cache
+	for _, fn := range allFns {
+		for _, b := range fn.Blocks {
+			for _, in := range b.Instrs {
+				switch x := in.(type) {
+				case *ssa.Store:
+					if f := fieldOfAddr(x.Addr); f != nil && f.Name() == "Transform" && f.Pkg() != nil && strings.Contains(f.Pkg().Path(), "client-go/tools/cache") {
+						if k, isNil := x.Val.(*ssa.Const); !(isNil && k.IsNil()) {
+							bad++
+							ck.fail(rule, funcID(fn)+"/informer-transform", ck.P.instrPos(x), funcID(fn), "no informer transform is installed: listed objects are the API server's objects, field for field", "InformerOptions.Transform ← "+x.Val.String(),
+								"fields the classification and the totals read (Spec.Unschedulable, Spec.Overhead, …) can be dropped before the scan sees the object")
+						}
+					}
+				case ssa.CallInstruction:
+					if g := x.Common().StaticCallee(); g != nil && strings.Contains(pkgPathOfFn(g), "client-go/tools/cache") && (strings.Contains(g.Name(), "Transform") || g.Name() == "SetTransform") {
+						bad++
+						ck.fail(rule, funcID(fn)+"/informer-transform", ck.P.instrPos(in), funcID(fn), "no informer transform is installed: listed objects are the API server's objects, field for field", g.String(), "")
+					}
+					if x.Common().IsInvoke() && x.Common().Method.Name() == "SetTransform" {
+						bad++
+						ck.fail(rule, funcID(fn)+"/informer-transform", ck.P.instrPos(in), funcID(fn), "no informer transform is installed: listed objects are the API server's objects, field for field", "SetTransform", "")
+					}
+				}
+			}
+		}
+	}
 	for _, fn := range fns {
 		for _, b := range fn.Blocks {
 			for _, in := range b.Instrs {
